@@ -58,3 +58,19 @@ def regress_cases():
     out.append(_case([('og', 'deep', None, [('g', '3', None), ('pg', None, [('g', '1', None), ('g', '2', None)])])],
                      [('1', 'HUMAN'), ('2', 'MOUSE'), ('3', 'XENTR')], 'copies-several-levels-below-group'))
     return out
+
+
+def deep_nest_case(n=270):
+    """a caterpillar species tree with n leaves and one family written with every level explicit (n-1 nested groups);
+    the innermost group holds a three-copy duplication written as directly nested paralogGroups, more than 256
+    groups deep (CPython caches small integers only up to 256: identity tests on depths go wrong beyond it)"""
+    nwk = '(S1,S2)N2'
+    for i in range(3, n + 1):
+        nwk = '(%s,S%d)N%d' % (nwk, i, i)
+    nwk += ';'
+    genes = [('a1', 'S1'), ('a2', 'S1'), ('a3', 'S1'), ('b', 'S2')] + [('g%d' % i, 'S%d' % i) for i in range(3, n + 1)]
+    grp = ('og', 'deep.2', None, [('pg', None, [('g', 'a1', None), ('pg', None, [('g', 'a2', None), ('g', 'a3', None)])]),
+                                  ('g', 'b', None)])
+    for i in range(3, n + 1):
+        grp = ('og', 'deep.%d' % i if i < n else 'deep', None, [grp, ('g', 'g%d' % i, None)])
+    return _case([grp], genes, 'nested-paralog-groups-more-than-256-groups-deep', newick=nwk)
